@@ -128,6 +128,23 @@ def check_batch(variant, params, idx, letters, p):
                         f"{variant}{params}: word {_w(idx[j], letters)}: result depends on the placeholder: "
                         f"nodata={nd0} -> {out0[j].tolist()} lopt={None if lopt0 is None else float(lopt0[j])}; "
                         f"missing cells as {enc} (nodata arg {nd}) -> {out[j].tolist()} lopt={None if lopt is None else float(lopt[j])}")
+    # zero weight at a missing cell means (lambda D'D z)_i = w_i (y_i - z_i) = 0 there: the fourth difference of the
+    # fitted curve vanishes at every missing cell, whatever weights (asymmetric, robust) the valid cells carry.
+    # On the int16 output each cell is off by at most 0.5, so |(D'D out)_i| <= 0.5 * sum_j |D'D_ij|.
+    gaps = enough[:, None] & ~valid
+    if gaps.any():
+        from ..oracle import pls
+        P = pls.dtd(n).astype(np.float64)
+        bound = 0.5 * np.abs(P).sum(axis=1) + 1e-6
+        c4 = out0.astype(np.float64) @ P.T
+        badg = gaps & (np.abs(c4) > bound[None, :])
+        p.count("gap_curvature", evaluations=int(gaps.any(axis=1).sum()), nontrivial=int(gaps.any(axis=1).sum()))
+        for j in np.nonzero(badg.any(axis=1))[0][:3]:
+            i = int(np.nonzero(badg[j])[0][0])
+            p.violation("gap_curvature", dict(key_base, word=idx[j].tolist()),
+                        {"kind": "enc", "variant": variant, "params": params, "idx": idx[j].tolist(), "letters": letters},
+                        f"{variant}{params}: word {_w(idx[j], letters)} -> {out0[j].tolist()}: the missing cell at position {i} influences the curve "
+                        f"(fourth difference {c4[j, i]:.1f} there, at most {bound[i]:.1f} possible for a zero-weight cell)")
     # gap filling: band equals the fixed-lambda smoother at the reported lambda (bit-exact by construction)
     if lopt0 is not None and not params.get("robust"):
         sel = enough
